@@ -41,6 +41,18 @@ func bitsSig(ds ...d128.Decimal) []string {
 	return out
 }
 
+// owned returns the text of a byte slice handed out by the package and then
+// overwrites the slice: a caller owns what it is given, so scribbling on it
+// must not disturb any later call (which it would if the slice aliased
+// package-level state). The determinism re-execution notices the difference.
+func owned(b []byte) string {
+	s := string(b)
+	for i := range b {
+		b[i] = '#'
+	}
+	return s
+}
+
 type c20Entry struct {
 	name string
 	// docPanic reports whether the documentation says this call panics; nil = never.
@@ -274,27 +286,34 @@ var c20Entries = []c20Entry{
 			buf = make([]byte, c.I%40)
 		}
 		form, neg, coef, exp := c.X.Dec().Decompose(buf)
-		return []string{fmt.Sprint(form, neg, coef, exp)}
+		return []string{fmt.Sprint(form, neg, exp), owned(coef)}
 	}},
 	{"MarshalBinary/Text/JSON", nil, func(c *c20Call) []string {
 		d := c.X.Dec()
 		b, e1 := d.MarshalBinary()
 		t, e2 := d.MarshalText()
 		j, e3 := d.MarshalJSON()
-		return []string{string(b), errStr(e1), string(t), errStr(e2), string(j), errStr(e3)}
+		return []string{owned(b), errStr(e1), owned(t), errStr(e2), owned(j), errStr(e3)}
 	}},
 	{"String", nil, func(c *c20Call) []string { return []string{c.X.Dec().String()} }},
 	{"Format", nil, func(c *c20Call) []string { return []string{d128.Format(c.X.Dec(), c.B, c.I)} }},
 	{"Append", nil, func(c *c20Call) []string {
-		return []string{string(d128.Append([]byte(c.T), c.X.Dec(), c.B, c.I))}
+		var dst []byte
+		if c.T != "" {
+			dst = []byte(c.T)
+		}
+		return []string{owned(d128.Append(dst, c.X.Dec(), c.B, c.I))}
 	}},
 	{"Decimal.Append", nil, func(c *c20Call) []string {
-		pre := []byte(c.T)
+		var pre []byte
+		if c.T != "" {
+			pre = []byte(c.T)
+		}
 		out := c.X.Dec().Append(pre, c.S)
 		if string(pre) != c.T {
 			panic("IMPURE: Decimal.Append modified the caller's bytes")
 		}
-		return []string{string(out)}
+		return []string{owned(out[len(pre):])}
 	}},
 	{"Sprintf", nil, func(c *c20Call) []string { return []string{fmt.Sprintf(c.S, c.X.Dec(), c.Y.Dec())} }},
 	{"Sprintf-verb", nil, func(c *c20Call) []string {
@@ -638,4 +657,59 @@ func TestC20_Concurrent(t *testing.T) {
 		}
 		c20conc.Run(t, a)
 	})
+}
+
+// TestC20_ExponentSweep calls every entry point of the table on operands at
+// every exponent of the format (quick: all exponents within 70 of zero and of
+// both ends, the rest with a stride; thorough: all 12288), for a few
+// coefficient shapes and both signs. Table look-ups indexed by an exponent or a
+// digit count are the typical place for a panic confined to one exponent.
+func TestC20_ExponentSweep(t *testing.T) {
+	st := S("C20", "exponent-sweep")
+	stride := 13
+	if cfg.tier == "thorough" {
+		stride = 1
+	}
+	off := int(splitmix(cfg.seed) % uint64(stride))
+	coefs := []*big.Int{big.NewInt(1), big.NewInt(15), new(big.Int).Sub(ref.Pow10(34), ref.One), ref.Cmax}
+	n := 0
+	idx := 0
+	for e := ref.Emin; e <= ref.Emax; e++ {
+		dense := abs(e) <= 70 || e-ref.Emin <= 70 || ref.Emax-e <= 70
+		if !dense && (e-ref.Emin)%stride != off {
+			continue
+		}
+		idx++
+		if idx%cfg.shards != cfg.shard {
+			continue
+		}
+		for ci, c := range coefs {
+			for _, neg := range []bool{false, true} {
+				x := DFin(neg, c, e)
+				y := DFin(!neg, coefs[(ci+1)%len(coefs)], e)
+				for i := range c20Entries {
+					en := &c20Entries[i]
+					a := c20Args{Call: c20Call{Op: en.name, X: x, Y: y, I: -e, J: int64(e), M: uint8(ci), S: "1e" + itoa64(int64(e)), T: "", B: "eEfgG"[ci%5], Neg: neg}, Default: 0}
+					switch en.name {
+					case "Format", "Append":
+						a.Call.I = ci * 11
+					case "Sprintf":
+						a.Call.S = "%v|%.3e"
+					case "Decimal.Append":
+						a.Call.S = "12.4g"
+					}
+					if v := c20.Eval(a); v != nil {
+						c20.writeFail(a, v)
+						t.Fatalf("%s", v.Msg)
+					}
+					n++
+				}
+			}
+		}
+	}
+	st.Eval(n)
+	if stride == 1 {
+		st.SetExhaustive()
+		st.Note("enumerated", "every entry point x every exponent -6176..6111 x 4 coefficient shapes x 2 signs")
+	}
 }
